@@ -33,7 +33,9 @@ def run(ops, profile='dev', timeout=120):
     p = subprocess.run([exe], input=json.dumps({'ops': ops}).encode(), stdout=subprocess.PIPE, stderr=subprocess.PIPE, timeout=timeout)
     if p.returncode != 0:
         return [{'crash': p.returncode, 'stderr': p.stderr.decode()[-2000:]}]
-    return json.loads(p.stdout.decode())
+    out = p.stdout.decode('utf-8', 'replace')
+    k = out.rfind('@@RESULT@@')
+    return json.loads(out[k + len('@@RESULT@@'):] if k >= 0 else out)
 
 
 if __name__ == '__main__':
